@@ -290,7 +290,8 @@ pub enum ScanItem {
 struct StorageResolver<'a, B, OC, SC, L> {
     storage: &'a Storage<B, OC, SC, L>,
     // objects currently being loaded, per thread (a resolver can be shared between threads)
-    chain: Mutex<Vec<(std::thread::ThreadId, PlainRef)>>,
+    // the typed loads in progress (per thread). the flag is set on the loads that are part of a reference cycle
+    chain: Mutex<Vec<(std::thread::ThreadId, PlainRef, bool)>>,
 }
 impl<'a, B, OC, SC, L> StorageResolver<'a, B, OC, SC, L> {
     pub fn new(storage: &'a Storage<B, OC, SC, L>) -> Self {
@@ -348,10 +349,15 @@ where
         {
             debug!("get {key:?} as {}", std::any::type_name::<T>());
             let mut chain = self.chain.lock().unwrap();
-            if chain.contains(&(thread, key)) {
+            if let Some(pos) = chain.iter().position(|&(t, k, _)| (t, k) == (thread, key)) {
+                // what the loads from there on return depends on where the cycle was entered
+                // (a tolerant reader drops the optional entry that closes it): they must not be cached
+                for entry in chain[pos ..].iter_mut().filter(|entry| entry.0 == thread) {
+                    entry.2 = true;
+                }
                 bail!("Recursive reference");
             }
-            chain.push((thread, key));
+            chain.push((thread, key, false));
         }
         #[cfg(feature="verif")]
         crate::verif::point(crate::verif::GET_PUSHED);
@@ -360,16 +366,22 @@ where
             crate::verif::point(crate::verif::GET_POP);
             let mut chain = self.chain.lock().unwrap();
             // entries of other threads may be interleaved with ours
-            if let Some(pos) = chain.iter().rposition(|&entry| entry == (thread, key)) {
+            if let Some(pos) = chain.iter().rposition(|&(t, k, _)| (t, k) == (thread, key)) {
                 chain.remove(pos);
             }
         });
         
         // did this call do the load itself (as opposed to finding a cached result)?
         let computed_here = std::cell::Cell::new(false);
+        // the value of a load that was part of a reference cycle: returned, but not cached
+        let in_cycle = std::cell::RefCell::new(None);
         let res = self.storage.cache.get_or_compute(key, || {
             computed_here.set(true);
             match self.resolve(key).and_then(|p| T::from_primitive(p, self)) {
+                Ok(obj) if self.chain.lock().unwrap().iter().any(|&(t, k, cycle)| cycle && (t, k) == (thread, key)) => {
+                    *in_cycle.borrow_mut() = Some(Shared::new(obj));
+                    Err(Arc::new(other!("object {} is part of a reference cycle", key.id)))
+                }
                 Ok(obj) => Ok(AnySync::new(Shared::new(obj))),
                 Err(e) => {
                     let p = self.resolve(key);
@@ -380,6 +392,9 @@ where
         });
         #[cfg(feature="verif")]
         crate::verif::point(crate::verif::GET_COMPUTED);
+        if let Some(val) = in_cycle.into_inner() {
+            return Ok(RcRef::new(key, val));
+        }
         match res {
             Ok(any) => {
                 match any.downcast() {
